@@ -16,6 +16,7 @@ package vault
 import (
 	"encoding/json"
 	"fmt"
+	"os"
 	"sort"
 	"strconv"
 	"strings"
@@ -1020,6 +1021,14 @@ func c14FreshPaths(n int) []string {
 	return out
 }
 
+// c14N picks a size by tier; the -race rebuild of the thorough tier uses the quick sizes.
+func c14N(quick, thorough int) int {
+	if os.Getenv("VERIF_RACE") != "" {
+		return quick
+	}
+	return kit.N(quick, thorough)
+}
+
 func b2u14(b bool) uint64 {
 	if b {
 		return 1
@@ -1051,7 +1060,7 @@ func TestVerif_C14_Sequential(t *testing.T) {
 	defer r.Write(t)
 	for _, tx := range []bool{false, true} {
 		e := c14Boot(t, tx, false)
-		for c := 0; c < kit.N(100, 300); c++ {
+		for c := 0; c < c14N(100, 600); c++ {
 			caseID := fmt.Sprintf("seq:%v:s%d:%d", tx, shard, c)
 			if !kit.WantCase(caseID) {
 				continue
@@ -1067,12 +1076,12 @@ func TestVerif_C14_Sequential(t *testing.T) {
 		}
 		e.v.Close()
 	}
-	r.Require("seq_ops", 2000)
-	r.Require("seq_cas_refused", 50)
-	r.Require("seq_cas_accepted", 100)
-	r.Require("seq_reads_of_pruned_version", 20)
-	r.Require("seq_reads_of_deleted_or_destroyed", 50)
-	r.Require("seq_reads_ok", 200)
+	r.Require("seq_ops", 8000)
+	r.Require("seq_cas_refused", 300)
+	r.Require("seq_cas_accepted", 600)
+	r.Require("seq_reads_of_pruned_version", 300)
+	r.Require("seq_reads_of_deleted_or_destroyed", 150)
+	r.Require("seq_reads_ok", 500)
 }
 
 func c14SeqCase(e *c14Env, r *kit.Result, rng *kit.Rand, caseID string) {
@@ -1609,6 +1618,7 @@ func c14RunConcurrent(e *c14Env, r *kit.Result, caseID string, seed int64, strea
 	r.Count("writes_refused", st.refused)
 	r.Count("ops_with_unknown_outcome", st.unknown)
 	r.Count("internal_errors", st.internalErrs)
+	r.Count("gate_requests_judged_blocked_on_a_lock", sched.Blocked)
 	if pl.pureCas {
 		wins, total := 0, 0
 		for ci := range results {
@@ -1765,7 +1775,7 @@ func TestVerif_C14_Gated(t *testing.T) {
 				if si%nshards != shard {
 					continue
 				}
-				ex := &kit.Explorer{MaxPreempt: 2, MaxRuns: kit.N(20, 150)}
+				ex := &kit.Explorer{MaxPreempt: 2, MaxRuns: c14N(20, 300)}
 				stop := false
 				ex.Explore(func(pol kit.Policy) (kit.Schedule, bool) {
 					s, cont := c14RunScen(e, r, seed, sc, si, pol)
@@ -1784,7 +1794,7 @@ func TestVerif_C14_Gated(t *testing.T) {
 		// (a') the same scenarios under uniformly random schedules (the depth-first
 		// enumeration spends its run cap on late preemption points)
 		for si, sc := range scens {
-			for k := 0; k < kit.N(12, 40); k++ {
+			for k := 0; k < c14N(12, 100); k++ {
 				caseID := fmt.Sprintf("rnd:%v:%d:s%d:%d", tx, si, shard, k)
 				if !kit.WantCase(caseID) {
 					continue
@@ -1797,7 +1807,7 @@ func TestVerif_C14_Gated(t *testing.T) {
 			}
 		}
 		// (b) PCT
-		for c := 0; c < kit.N(50, 200); c++ {
+		for c := 0; c < c14N(50, 500); c++ {
 			caseID := fmt.Sprintf("pct:%v:s%d:%d", tx, shard, c)
 			if !kit.WantCase(caseID) {
 				continue
@@ -1824,13 +1834,15 @@ func TestVerif_C14_Gated(t *testing.T) {
 		}
 		e.v.Close()
 	}
-	r.Require("histories_with_overlap", 40)
-	r.Require("overlapping_op_pairs_same_path", 300)
-	r.Require("cas_races_overlapped", 10)
-	r.Require("pure_cas_races_exactly_one", 5)
-	r.Require("writes_ok", 200)
-	r.Require("writes_refused", 30)
-	r.Require("porcupine_partitions_checked", 100)
+	r.Require("histories_with_overlap", 250)
+	r.Require("overlapping_op_pairs_same_path", 2000)
+	r.Require("cas_races_overlapped", 120)
+	r.Require("pure_cas_races_exactly_one", 50)
+	r.Require("writes_ok", 1000)
+	r.Require("writes_refused", 300)
+	r.Require("porcupine_partitions_checked", 300)
+	r.Require("concurrent_faults_fired", 5)
+	r.Require("gate_requests_judged_blocked_on_a_lock", 50)
 }
 
 func c14RunScen(e *c14Env, r *kit.Result, seed int64, sc c14Scen, si int, pol kit.Policy) (kit.Schedule, bool) {
@@ -1856,7 +1868,7 @@ func TestVerif_C14_Free(t *testing.T) {
 	type flav struct{ tx, cache bool }
 	for fi, fl := range []flav{{false, false}, {true, false}, {false, true}} {
 		e := c14Boot(t, fl.tx, fl.cache)
-		for c := 0; c < kit.N(90, 400); c++ {
+		for c := 0; c < c14N(90, 1000); c++ {
 			caseID := fmt.Sprintf("free:%d:s%d:%d", fi, shard, c)
 			if !kit.WantCase(caseID) {
 				continue
@@ -1884,9 +1896,11 @@ func TestVerif_C14_Free(t *testing.T) {
 		}
 		e.v.Close()
 	}
-	r.Require("histories_with_overlap", 30)
-	r.Require("overlapping_op_pairs_same_path", 200)
-	r.Require("pure_cas_races_exactly_one", 10)
-	r.Require("writes_ok", 300)
-	r.Require("porcupine_partitions_checked", 100)
+	r.Require("histories_with_overlap", 100)
+	r.Require("overlapping_op_pairs_same_path", 2000)
+	r.Require("cas_races_overlapped", 100)
+	r.Require("pure_cas_races_exactly_one", 30)
+	r.Require("writes_ok", 800)
+	r.Require("porcupine_partitions_checked", 250)
+	r.Require("concurrent_faults_fired", 5)
 }
